@@ -54,7 +54,7 @@ fn c06_decision() -> BoxedStrategy<Decision> {
 }
 
 fn script_strat(_: &Ctx) -> BoxedStrategy<ScriptCase> {
-    (any_cfg(4000, 20), 2usize..=8, any::<bool>(), proptest::collection::vec(c06_decision(), 1..64), prop_oneof![5 => Just(None), 1 => (any::<u16>(), prop_oneof![0.01..1.0f64, -1.0..-0.01f64]).prop_map(Some)])
+    (any_cfg(4000, 60), 2usize..=8, any::<bool>(), proptest::collection::vec(c06_decision(), 1..64), prop_oneof![5 => Just(None), 1 => (any::<u16>(), prop_oneof![0.01..1.0f64, -1.0..-0.01f64]).prop_map(Some)])
         .prop_map(|(cfg, n, wide, decisions, outside)| ScriptCase { cfg, n, wide, decisions, outside })
         .boxed()
 }
